@@ -14,6 +14,17 @@ which one section the loader consumes - store.weights, gel.edges - is valid up t
 k = 0..n, bare or embedded in a complete snapshot body).  The fresh-boot world W2 starts with live store weights, W1
 with an empty weight map, so a load that fails half way and has already touched the live world is visible in apply.jsonl.
 
+Exception alphabet = class x INSTANCE SHAPE (text argument / no arguments at all, i.e. a bare `raise X` / one non-text
+argument / two arguments): a guard that inspects the exception it caught must survive every shape (tokens "X", "X()",
+"X(7)", "X(m,d)").
+
+Data-induced failures (sites live:gel.edges@...): besides raising at the call boundary an optional layer can fail on what
+it READS.  The hybrid rerank reads the live GEL graph; with GEL maintenance off no mandatory stage reads it.  The corrupt
+entries of the snapshot alphabet (weight not a number, record not a mapping, section not a mapping) are placed directly in
+state['graph'] of a booted world, one edge at a time, with t2.hybrid on and graph.enabled off.  Judged only if the same
+world completes with the layer switched off (precondition); baselines: layer off / rerank identity / corrupt entries absent /
+corrupt weight read as 0.0 / empty section.
+
 Oracle (per execution):
   (1) every run_turn call returns a TurnResult (nothing escapes);
   (2) the bytes of t1.jsonl / t2.jsonl / t4.jsonl / apply.jsonl / turn.jsonl equal those of AT LEAST ONE
@@ -103,56 +114,85 @@ class C20Fault(Exception):
     """custom Exception subclass (not related to any builtin family)"""
 
 
-def _mk_exc(name: str, site: str) -> BaseException:
-    msg = "c20 injected at %s" % site
-    if name == "ValueError":
-        return ValueError(msg)
-    if name == "KeyError":
-        return KeyError(msg)
-    if name == "RuntimeError":
-        return RuntimeError(msg)
-    if name == "OSError":
-        return OSError(errno.EIO, msg)
-    if name == "TypeError":
-        return TypeError(msg)
-    if name == "ZeroDivisionError":
-        return ZeroDivisionError(msg)
+# Exception INSTANCE shapes.  "For all exception types raised there" is a statement about raise sites the engine does not
+# control: a subsystem may `raise NotImplementedError` (no arguments at all), `raise KeyError(7)` (what d[7] produces: one
+# argument that is not text) or `raise Err("msg", {...})` (several arguments).  A guard that looks INTO the exception it
+# caught (exc.args[0], a slice / concatenation of it, tuple unpacking of exc.args) is only fail-soft if it survives all of
+# them.  A token of the exception alphabet is  Name + shape suffix:
+#   "Name"        one text argument (for OSError-family the usual (errno, text))
+#   "Name()"      constructed without arguments (a bare `raise Name`)
+#   "Name(7)"     one argument that is not text
+#   "Name(m,d)"   two arguments: text and a dict
+# UnicodeDecodeError / JSONDecodeError have fixed constructor signatures and exist in the first shape only.
+SHAPES = ("", "()", "(7)", "(m,d)")
+_FIXED_SIGNATURE = ("UnicodeDecodeError", "JSONDecodeError")
+
+
+def _exc_class(name: str):
+    import builtins
     if name == "C20Fault":
-        return C20Fault(msg)
-    # thorough-only extras (all are Exception subclasses; BaseException-only types are not "failures inside")
-    if name == "AttributeError":
-        return AttributeError(msg)
-    if name == "IndexError":
-        return IndexError(msg)
-    if name == "AssertionError":
-        return AssertionError(msg)
-    if name == "StopIteration":
-        return StopIteration(msg)
-    if name == "MemoryError":
-        return MemoryError(msg)
-    if name == "RecursionError":
-        return RecursionError(msg)
-    if name == "NotImplementedError":
-        return NotImplementedError(msg)
-    if name == "UnicodeDecodeError":
-        return UnicodeDecodeError("utf-8", b"\xff", 0, 1, msg)
-    if name == "JSONDecodeError":
-        return json.JSONDecodeError(msg, "", 0)
-    if name == "PermissionError":
-        return PermissionError(errno.EACCES, msg)
+        return C20Fault
     if name == "SnapshotError":
         from clematis.errors import SnapshotError
-        return SnapshotError(msg)
+        return SnapshotError
     if name == "LLMAdapterError":
         from clematis.adapters.llm import LLMAdapterError
-        return LLMAdapterError(msg)
+        return LLMAdapterError
+    if name in EXC_BASE or name in EXC_EXTRA:
+        cls = getattr(builtins, name, None)
+        if isinstance(cls, type) and issubclass(cls, Exception):
+            return cls
     raise HarnessError("unknown exception name %s" % name)
 
 
+def _split_token(token: str) -> Tuple[str, str]:
+    i = token.find("(")
+    name, shape = (token, "") if i < 0 else (token[:i], token[i:])
+    if shape not in SHAPES:
+        raise HarnessError("unknown exception shape %s" % token)
+    return name, shape
+
+
+def _mk_exc(token: str, site: str) -> BaseException:
+    name, shape = _split_token(token)
+    msg = "c20 injected at %s" % site
+    if name in _FIXED_SIGNATURE:
+        if shape:
+            raise HarnessError("%s has a fixed constructor signature" % name)
+        return UnicodeDecodeError("utf-8", b"\xff", 0, 1, msg) if name == "UnicodeDecodeError" else json.JSONDecodeError(msg, "", 0)
+    cls = _exc_class(name)
+    if shape == "()":
+        return cls()
+    if shape == "(7)":
+        return cls(7)
+    if shape == "(m,d)":
+        return cls(msg, {"site": site})
+    if name == "OSError":
+        return cls(errno.EIO, msg)
+    if name == "PermissionError":
+        return cls(errno.EACCES, msg)
+    return cls(msg)
+
+
 EXC_BASE = ["ValueError", "KeyError", "RuntimeError", "OSError", "TypeError", "ZeroDivisionError", "C20Fault"]
+# thorough-only extras (all are Exception subclasses; BaseException-only types are not "failures inside")
 EXC_EXTRA = ["AttributeError", "IndexError", "AssertionError", "StopIteration", "MemoryError", "RecursionError",
              "NotImplementedError", "UnicodeDecodeError", "JSONDecodeError", "PermissionError", "SnapshotError",
              "LLMAdapterError"]
+
+
+def exc_tokens(thorough: bool, shaped: bool = True) -> List[str]:
+    """singles alphabet.  quick: every base type as text-carrying and as argument-less instance + one non-text and one
+    two-argument instance; thorough: every type x every shape it can be constructed in (shaped=False: first shape only)."""
+    if not thorough:
+        return EXC_BASE + ([t + "()" for t in EXC_BASE] + ["KeyError(7)", "C20Fault(m,d)"] if shaped else [])
+    out = []
+    for sh in (SHAPES if shaped else SHAPES[:1]):  # shape-major: the text-carrying tokens come first
+        for t in EXC_BASE + EXC_EXTRA:
+            if sh and t in _FIXED_SIGNATURE:
+                continue
+            out.append(t + sh)
+    return out
 
 
 # ----------------------------------------------------------------------------- execution environment
@@ -289,6 +329,7 @@ class Mode:
 
 class Site:
     typed = True  # takes an exception type
+    precondition: Optional[int] = None  # index of a mode whose run must complete, else the plan is outside the property
 
     def __init__(self, name: str, inject: Callable[[Env, str], None], modes: List[Mode], where: str,
                  cfg: Optional[Callable[[Env], dict]] = None, cfg_post: Optional[Callable[[Any], None]] = None,
@@ -519,8 +560,124 @@ def _partial_sites(thorough: bool) -> List[str]:
                          ("corrupt-entries-dropped", _snapshot_doc(shape, gel=_gel_section(_VALID_GEL_EDGES)))], fname))
     return out
 
+# -- unreadable entries in the LIVE world an optional layer reads (data-induced failure) ---------------------------
+# Every raiser site above makes the optional callable fail AT ITS CALL BOUNDARY.  A subsystem can also fail because of what
+# it is given to read: the hybrid rerank (t2.hybrid) reads the live GEL graph state['graph'], documents itself as tolerant
+# (an edge record that is not a dict, a weight that is not a number -> the edge counts as absent; anything else that goes
+# wrong in it is absorbed by apply_quality) and is the one optional layer whose input no mandatory stage reads when GEL
+# maintenance (graph.enabled) is off - the deployment that reranks over a loaded / externally built static graph.  This is
+# the live-state twin of the partially corrupt snapshot alphabet: the same corrupt entries, already in state['graph'] of a
+# process that has booted.  Everything that belongs to the optional feature takes part (its cache-key digest, its metrics),
+# whether or not it sits inside the feature's own guard - that is the point of the leg.
+# Oracle as for every site, with one precondition that keeps it inside the property: the run with the layer switched off
+# (t2.hybrid.enabled=false) on the SAME dirty world must complete - then no mandatory part of the turn depends on the dirty
+# entries and whatever goes wrong with the layer on is a failure inside the optional layer.  If it does not complete the
+# plan is outside the property and only counted (plans_outside_property).
+# Admissible baselines: layer off (same world) / rerank replaced by the identity stub (same world) / the corrupt entries
+# removed from the world / the corrupt entries read as the documented default weight 0.0 / the whole section empty.
+_LIVE_EDGES = [_gel_edge("ep1", "ep2", 0.5), _gel_edge("ep1", "ep4", 0.25), _gel_edge("ep2", "ep4", -0.25)]  # = W2's graph
+_LIVE_BAD_WEIGHT: Dict[str, Any] = {"weight-text": "heavy", "weight-null": None, "weight-list": [0.5], "weight-object": {"w": 0.5}}
+_LIVE_BAD_REC: Dict[str, Any] = {"entry-null": None, "entry-text": "ep1,ep2,0.5", "entry-number": 3, "entry-list": ["ep1", "ep2", 0.5]}
+_LIVE_BAD_SECTION: Dict[str, Any] = {"edges-list": lambda: [dict(e) for e in _LIVE_EDGES], "edges-text": lambda: "ep1→ep2",
+                                     "edges-number": lambda: 7}
+_LIVE_BAD_GRAPH: Dict[str, Any] = {"graph-text": "graph", "graph-list": [1, 2], "graph-number": 7}
+LIVE_CLASS = "live:gel.edges"
+LIVE_WORLDS = ("W1", "W2b")
+_LIVE_CFG = {"graph": {"enabled": False}}
+_HYBRID_OFF_CFG = {"t2": {"hybrid": {"enabled": False}}}
+
+
+def _live_graph(edges: Any) -> Dict[str, Any]:
+    g = _gel_section(_LIVE_EDGES)
+    g["edges"] = edges
+    return g
+
+
+def _install_graph(mk_graph: Callable[[], Any]) -> Callable[[Env], None]:
+    def stub(env: Env) -> None:
+        def hook(state):
+            state["_boot_loaded"] = True  # the graph of a process that has booted (a fresh boot replaces state['graph'])
+            g = mk_graph()
+            if g is _ABSENT:
+                state.pop("graph", None)
+            else:
+                state["graph"] = g
+        env.state_hooks.append(hook)
+    return stub
+
+
+def _rerank_identity(env: Env) -> None:
+    env.patch(quality_mod, "rerank_with_gel", lambda ctx, state, items: (list(items), {"hybrid_used": False}))
+
+
+def _mk_live(label: str, dirty: Callable[[], Any], cleaned: List[Tuple[str, Callable[[], Any]]]) -> str:
+    site = "%s@%s" % (LIVE_CLASS, label)
+    if site in SITES:
+        return site
+    put_dirty = _install_graph(dirty)
+
+    def inject(env: Env, _exc: str) -> None:
+        put_dirty(env)
+        real = quality_mod.rerank_with_gel  # transparent counter: the optional layer was entered with the dirty graph in place
+
+        def counted(ctx, state, items):
+            env.fire(site)
+            return real(ctx, state, items)
+        env.patch(quality_mod, "rerank_with_gel", counted)
+
+    def idle(env: Env) -> None:
+        put_dirty(env)
+        _rerank_identity(env)
+
+    modes = [Mode("hybrid-off", cfg=_HYBRID_OFF_CFG, stub=put_dirty),  # FIRST: the precondition (must complete)
+             Mode("idle-stub:identity", stub=idle)] + [Mode(n, stub=_install_graph(mk)) for n, mk in cleaned]
+    _site(site, inject, modes,
+          "stages/hybrid.rerank_with_gel reads state['graph'] tolerantly (_edge_weight/_degree: not a dict / not a number -> 0.0) "
+          "and t2/quality.apply_quality guards the call: try: rerank_with_gel(..) except Exception: hybrid_used=False",
+          cfg=lambda env: _LIVE_CFG, worlds=LIVE_WORLDS, typed=False)
+    SITES[site].precondition = 0  # index of the mode that must complete for the plan to be inside the property
+    return site
+
+
+def _live_sites(thorough: bool) -> List[str]:
+    """entry level: which of the three edges is corrupt (j) x how (weight not a number / record not a dict);
+    section level: state['graph']['edges'] not a mapping; graph level: state['graph'] not a mapping."""
+    out: List[str] = []
+    import copy as _copy
+
+    def edges_with(j: int, rec: Any, drop: bool = False) -> Callable[[], Any]:
+        def mk():
+            d: Dict[str, Any] = {}
+            for i, e in enumerate(_LIVE_EDGES):
+                if i == j:
+                    if not drop:
+                        d[e["id"]] = _copy.deepcopy(rec)
+                else:
+                    d[e["id"]] = dict(e)
+            return _live_graph(d)
+        return mk
+
+    empty = ("section-empty", lambda: _live_graph({}))
+    w_kinds = list(_LIVE_BAD_WEIGHT) if thorough else ["weight-text", "weight-null"]
+    r_kinds = list(_LIVE_BAD_REC) if thorough else ["entry-null"]
+    for j, e in enumerate(_LIVE_EDGES):
+        for kind in w_kinds:
+            out.append(_mk_live("%s,j=%d" % (kind, j), edges_with(j, dict(e, weight=_LIVE_BAD_WEIGHT[kind])),
+                                [("corrupt-entries-dropped", edges_with(j, None, drop=True)),
+                                 ("corrupt-weight-as-default-0.0", edges_with(j, dict(e, weight=0.0))), empty]))
+        for kind in r_kinds:
+            out.append(_mk_live("%s,j=%d" % (kind, j), edges_with(j, _LIVE_BAD_REC[kind]),
+                                [("corrupt-entries-dropped", edges_with(j, None, drop=True)), empty]))
+    for kind in (list(_LIVE_BAD_SECTION) if thorough else ["edges-list"]):
+        out.append(_mk_live("section-" + kind, (lambda k: (lambda: _live_graph(_LIVE_BAD_SECTION[k]())))(kind), [empty]))
+    for kind in (list(_LIVE_BAD_GRAPH) if thorough else []):
+        out.append(_mk_live("section-" + kind, (lambda k: (lambda: _copy.deepcopy(_LIVE_BAD_GRAPH[k])))(kind),
+                            [empty, ("graph-absent", lambda: _ABSENT)]))
+    return out
+
+
 # -- GEL maintenance passes -----------------------------------------------------------------------
-_PASS_OFF = {"M": {"graph": {"merge": {"enabled": False}}}, "S": {"graph": {"split": {"enabled": False}}},
+_PASS_OFF ={"M": {"graph": {"merge": {"enabled": False}}}, "S": {"graph": {"split": {"enabled": False}}},
              "P": {"graph": {"promotion": {"enabled": False}}}}
 
 
@@ -855,6 +1012,7 @@ _site("qtrace:write",
 
 BASE_SITE_NAMES = list(SITES)  # quick + thorough; singles and pairs
 PARTIAL_QUICK = _partial_sites(False)  # quick + thorough; singles only
+LIVE_QUICK = _live_sites(False)  # quick + thorough; singles only
 
 
 def _register_thorough_sites() -> List[str]:
@@ -873,6 +1031,7 @@ def _register_thorough_sites() -> List[str]:
                 _mk_garbage(k, alt, c)
             extra.append(s)
     extra.extend(s for s in _partial_sites(True) if s not in PARTIAL_QUICK)
+    extra.extend(s for s in _live_sites(True) if s not in LIVE_QUICK)
     return extra
 
 
@@ -998,12 +1157,21 @@ class Checker:
         return self.base_cache[key]
 
     def check(self, world, seq, plan) -> Dict[str, Any]:
-        """returns {status: ok|abort|bad_result|logs|skip, matched, what, fired, ...}"""
+        """returns {status: ok|abort|bad_result|logs|skip|outside, matched, what, fired, ...}"""
         r = execute(self.scratch, world, seq, plan)
         if not r["cfg_ok"]:
             return {"status": "skip"}
         self.turns += r.get("turns", 0)
         res: Dict[str, Any] = {"fired": dict(r["fired"]), "lines": r.get("lines")}
+        sites = [SITES[s] for s, _ in plan]
+        for s in sites:
+            if s.precondition is not None:
+                if len(sites) != 1:
+                    raise HarnessError("site %s with a precondition is enumerated singly only" % s.name)
+                if self.baseline(world, seq, plan, (s.precondition,)) is None:
+                    # the mandatory part of the turn cannot process this world either: nothing to attribute to the optional layer
+                    res.update(status="outside")
+                    return res
         if r["abort"]:
             a = r["abort"]
             res.update(status="abort", what="run_turn raised %s(%s) at %s in turn %d" % (a["type"], a["msg"], a["at"], a["turn"]))
@@ -1011,7 +1179,6 @@ class Checker:
         if r["bad_result"]:
             res.update(status="bad_result", what="run_turn returned %s in turn %d" % (r["bad_result"]["got"], r["bad_result"]["turn"]))
             return res
-        sites = [SITES[s] for s, _ in plan]
         nearest = None
         closest = None  # the baseline that differs in the fewest canonical files (later = more specific mode wins ties)
         n_base = 0
@@ -1056,7 +1223,7 @@ def _sig_single(site: str, res: Dict[str, Any]) -> str:
 def judge(ck: Checker, world, seq, plan) -> Tuple[Dict[str, Any], List[Tuple[str, str]]]:
     """Oracle for one plan; violations come back as (signature, what)."""
     res = ck.check(world, seq, plan)
-    if res["status"] in ("ok", "skip"):
+    if res["status"] in ("ok", "skip", "outside"):
         return res, []
     desc = "world=%s seq=%s fault=%s: %s" % (world, list(map(list, seq)), ["%s!%s" % tuple(p) for p in plan], res["what"])
     if len(plan) == 1:
@@ -1066,7 +1233,7 @@ def judge(ck: Checker, world, seq, plan) -> Tuple[Dict[str, Any], List[Tuple[str
     explained = False
     for i, p in enumerate(plan):
         r1 = ck.check(world, seq, [p])
-        if r1["status"] in ("ok", "skip"):
+        if r1["status"] in ("ok", "skip", "outside"):
             continue
         out.append((_sig_single(p[0], r1), desc + "  [single %s!%s alone: %s]" % (p[0], p[1], r1["what"])))
         if r1["status"] != "logs" or res["status"] != "logs":
@@ -1108,7 +1275,7 @@ def _live(site: str, world: str) -> bool:
     return w is None or world in w
 
 
-def _worker(chunk, st: Stats, scratch_root: str, excs: List[str], pair_excs: List[str]):
+def _worker(chunk, st: Stats, scratch_root: str, excs: List[str], pair_excs: List[str], shaped_seqs: List[Any]):
     logging.disable(logging.CRITICAL)
     scratch = os.path.join(scratch_root, "w%d" % os.getpid())
     os.makedirs(scratch, exist_ok=True)
@@ -1117,6 +1284,8 @@ def _worker(chunk, st: Stats, scratch_root: str, excs: List[str], pair_excs: Lis
     try:
         for world, seq, sites in chunk:
             types = excs if len(sites) == 1 else pair_excs
+            if len(sites) == 1 and list(map(list, seq)) not in shaped_seqs:
+                types = [t for t in excs if "(" not in t]  # the instance-shape dimension is crossed with the shaped sequences only
             if not any(SITES[s].typed for s in sites):
                 types = ["-"]
             for exc in types:
@@ -1125,6 +1294,10 @@ def _worker(chunk, st: Stats, scratch_root: str, excs: List[str], pair_excs: Lis
                 if res["status"] == "skip":
                     st.add("plans_gates_exclusive")
                     break
+                if res["status"] == "outside":
+                    st.add("plans_outside_property")
+                    st.distinct("outcomes", ["outside"])
+                    continue
                 st.add("validated")
                 st.add("plans_single" if len(sites) == 1 else "plans_pair")
                 st.distinct("states", [world, list(seq), plan])
@@ -1166,6 +1339,18 @@ def _selfcheck(run: Run) -> None:
             raise HarnessError("canonical log %s empty in the undisturbed run" % f)
     if b'"applied": 0' in a["logs"]["apply.jsonl"].splitlines()[0]:
         raise HarnessError("scripted planner / store no longer produce applied deltas (store sites would be vacuous)")
+    # live-world leg: on the CLEAN static graph the rerank must engage, otherwise corrupt entries could not matter
+    SITES["live:selfcheck"] = Site("live:selfcheck", lambda env, exc: None, [Mode("clean-graph", stub=_install_graph(lambda: _live_graph({e["id"]: dict(e) for e in _LIVE_EDGES})))],
+                                   "-", cfg=lambda env: _LIVE_CFG, typed=False)
+    try:
+        for w in LIVE_WORLDS:
+            c = execute(run.scratch, w, SEQ_QUICK[0], [("live:selfcheck", "-")], modes=[0])
+            if c["abort"] or c["bad_result"]:
+                raise HarnessError("live-world leg: clean static graph run does not complete on %s: %r" % (w, c["abort"] or c["bad_result"]))
+            if b'"hybrid_used": true' not in c["logs"]["t2.jsonl"]:
+                raise HarnessError("live-world leg: hybrid rerank does not engage on the clean static graph of %s (leg would be vacuous)" % w)
+    finally:
+        SITES.pop("live:selfcheck", None)
     logging.disable(logging.NOTSET)
 
 
@@ -1173,13 +1358,15 @@ def run(run: Run) -> None:
     _selfcheck(run)
     names = list(BASE_SITE_NAMES)
     extra_names = _register_thorough_sites() if run.thorough else []
-    excs = EXC_BASE + (EXC_EXTRA if run.thorough else [])
-    pair_excs = EXC_BASE if run.thorough else ["RuntimeError"]
+    excs = exc_tokens(run.thorough)
+    pair_excs = (EXC_BASE + ["RuntimeError()"]) if run.thorough else ["RuntimeError"]
     seqs = seqs_for(run.thorough)
+    # exception instance shapes other than the text-carrying one: on every quick sequence; thorough: on the pair sequences (4 of 36)
+    shaped_seqs = [[list(x) for x in sq] for sq in (SEQ_PAIRS_THOROUGH if run.thorough else SEQ_QUICK)]
     items = []
     for world in WORLDS:
         for seq in seqs:
-            for s in names + PARTIAL_QUICK + extra_names:
+            for s in names + PARTIAL_QUICK + LIVE_QUICK + extra_names:
                 if _live(s, world):
                     items.append((world, seq, (s,)))
     # pairs: every unordered pair of base sites
@@ -1201,7 +1388,17 @@ def run(run: Run) -> None:
         "stages/t3/trace.emit_trace: try: logs.append({...}) except Exception: pass"
     for cls in PARTIAL_CLASSES:
         run.notes["sites"][cls + " (partially corrupt snapshot files, singles only)"] = SITES[PARTIAL_QUICK[0]].where
+    run.notes["sites"][LIVE_CLASS + " (unreadable entries in the live GEL graph the hybrid rerank reads, GEL maintenance off, singles only)"] = \
+        SITES[LIVE_QUICK[0]].where
     run.notes["n_sites"] = len(names)
+    run.notes["n_live_world_sites"] = len(LIVE_QUICK) + len([s for s in extra_names if s.startswith(LIVE_CLASS + "@")])
+    run.notes["live_world_alphabet"] = {
+        "worlds": list(LIVE_WORLDS), "config": "main config with graph.enabled=false (static graph), t2.hybrid.enabled=true",
+        "edges": [e["id"] for e in _LIVE_EDGES],
+        "kinds": sorted({s.split("@")[1].split(",")[0] for s in LIVE_QUICK + extra_names if s.startswith(LIVE_CLASS + "@")}),
+        "position_j": "which of the %d edges is the corrupt one" % len(_LIVE_EDGES)}
+    run.notes["exception_shapes"] = {"Name": "one text argument (OSError family: errno, text)", "Name()": "no arguments (bare raise)",
+                                     "Name(7)": "one non-text argument", "Name(m,d)": "two arguments (text, dict)"}
     run.notes["n_extra_garbage_sites"] = len(extra_names)
     run.notes["n_partial_snapshot_sites"] = len(PARTIAL_QUICK) + len([s for s in extra_names if s.startswith("boot:partial:")])
     run.notes["partial_snapshot_alphabet"] = {
@@ -1214,6 +1411,7 @@ def run(run: Run) -> None:
             len(_VALID_W), len(_VALID_GEL_EDGES)),
         "live_weights_at_boot": {"W1": 0, "W2": len(LIVE_W)}}
     run.notes["exception_types_singles"] = excs
+    run.notes["n_sequences_singles_with_every_instance_shape"] = len(shaped_seqs)
     run.notes["exception_types_pairs"] = pair_excs
     run.notes["worlds"] = WORLDS
     run.notes["n_sequences_singles"] = len(seqs)
@@ -1225,9 +1423,13 @@ def run(run: Run) -> None:
                 "exception type); singles: every site x every type; pairs: every unordered site pair whose gates can be open "
                 "together x type(s); fault active in both turns; boot files: whole-file garbage kinds (singles and pairs) and "
                 "partially corrupt snapshots = section in {store.weights, gel.edges} x corruption kind x position k of the corrupt "
-                "entry x shape {bare, full} (singles); non-trivial = every installed fault was actually reached "
-                "(raiser called / garbage file picked by the boot loader)")
-    run.pmap(_worker, items, extra=(run.scratch, excs, pair_excs), chunks=None)
+                "entry x shape {bare, full} (singles); live-world corruption (singles, booted worlds, GEL maintenance off, hybrid rerank on) = "
+                "which edge of state['graph'] is corrupt x kind {weight not a number, record not a mapping} + edges / graph section not a mapping; "
+                "exception type = class x instance shape {text argument, no arguments, non-text argument, two arguments} "
+                "(shapes other than the first: on coverage.n_sequences_singles_with_every_instance_shape of the sequences); "
+                "non-trivial = every installed fault was actually reached "
+                "(raiser called / garbage file picked by the boot loader / rerank layer entered with the corrupt graph in place)")
+    run.pmap(_worker, items, extra=(run.scratch, excs, pair_excs, shaped_seqs), chunks=None)
     cands: Dict[str, Tuple[str, str, Any]] = {}
     for k in [k for k in run.notes if k.startswith("_viol|")]:
         sig, rank, what, case = run.notes.pop(k)
@@ -1252,13 +1454,17 @@ def run(run: Run) -> None:
     logging.disable(logging.NOTSET)
     fired = run.sets.get("sites_fired", set())
     from mc.runner import h64
-    never = [s for s in names + PARTIAL_CLASSES + ["t3trace:emit_trace"] if h64(s.split("@")[0]) not in fired]
+    never = [s for s in names + PARTIAL_CLASSES + [LIVE_CLASS, "t3trace:emit_trace"] if h64(s.split("@")[0]) not in fired]
     run.notes["sites_never_reached"] = never
     if never and not run.viol:  # with violations present an early abort may legitimately hide later sites
         raise HarnessError("fault never reached at declared site(s) %s - seam rotted or gate not open" % never)
     run.assume("declared fail-soft sites = the try/except-guarded or 'never raises'-documented calls listed in coverage.sites; "
                "gel_observe/gel_tick, the main snapshot write, stage functions and log writers are not declared optional and are not injected")
-    run.assume("a failure is an Exception subclass raised by the optional callable (BaseException-only types such as KeyboardInterrupt are not failures of a subsystem)")
+    run.assume("a failure is an Exception subclass raised by the optional callable (BaseException-only types such as KeyboardInterrupt are not failures of a subsystem); "
+               "exception instances are constructed in the shapes listed in coverage.exception_shapes (exceptions whose own __str__/__repr__ raise are not enumerated)")
+    run.assume("live-world corruption is judged only where the run with t2.hybrid switched off on the same corrupt world completes (then no mandatory stage depends on the "
+               "corrupt entries; otherwise the plan is counted as plans_outside_property); GEL maintenance (graph.enabled) is off in this leg because gel_tick/gel_observe "
+               "are not declared optional and read the same graph; admissible behaviours: layer off / rerank identity / corrupt entries absent / corrupt weight read as 0.0 / section empty")
     run.assume("injected callables fail cleanly: the replaced callable raises before doing any work; a half-finished optional operation is "
                "modelled only for the boot loader, through snapshot files that are valid up to an entry and corrupt there (store.weights, gel.edges)")
     run.assume("partially corrupt snapshot: admissible behaviours are the failing unit idle at file, section or entry granularity "
